@@ -228,7 +228,7 @@ def run(chk):
     chk.rule("thermal-hamiltonian", "both thermal propagation paths and the energy bookkeeping use the Hamiltonian the job was given", 3)
     thermal_hamiltonian_rule(chk, src)
     chk.rule("solver-sibling", "Krylov and ODE branch integrate the same exponent in imaginary time", 6)
-    chk.rule("imag-normalise", "evolve(): complex (imaginary) step => state and prefactor normalised; real step => tensors only", 2)
+    chk.rule("imag-normalise", "evolve(): complex (imaginary) step => state and prefactor normalised; real step => tensors only (abstract run of both dispatchers)", 8)
     chk.rule("purification", "MpDm.from_mps embeds the state diagonally; ancilla carries no quantum number; operator sites carry (q, -q); tree auxiliary space", 6)
     auxiliary_space_rule(chk, src)
     dt, off, H = sp.Symbol("dt"), sp.Symbol("offset"), sp.Symbol("H")
@@ -367,15 +367,28 @@ def run(chk):
                           f"(for CMF: the mean field at t/2 is wrong and the scheme loses an order)")
     if n_re == 0:
         raise AnalysisError("no re-entrant evolve() call after an imaginary-step conversion found (anchor moved)")
-    # ---- normalisation in evolve
-    for rel, qual, cond in ((MPS, "Mps.evolve", "np.iscomplex(evolve_dt)"), (TREE, "TTNS.evolve", "imag_time")):
+    # ---- normalisation in evolve: abstract run of the two dispatchers with the scheme stubbed, for a real and an imaginary step, normalize on / off
+    from ..syminterp import SymInterp, Sym, Blob, SymDict
+    for rel, qual in ((MPS, "Mps.evolve"), (TREE, "TTNS.evolve")):
         fi = src.func(rel, qual)
-        found = None
-        for n_ in ast.walk(fi.node):
-            if isinstance(n_, ast.If) and unparse(n_.test) == cond and any("normalize" in unparse(s) for s in n_.body):
-                found = ([unparse(s).replace(" ", "") for s in n_.body], [unparse(s).replace(" ", "") for s in n_.orelse])
-        ok = found is not None and any("normalize('mps_and_coeff')" in s for s in found[0]) and any("normalize('mps_only')" in s for s in found[1])
-        chk.ob("imag-normalise", qual, ok, fi.where, found, "complex step: mps_and_coeff; real step: mps_only", line=fi.node.lineno)
+        for imag in (True, False):
+            for normalize in (True, False):
+                calls = []
+                new = Sym("evolved")
+                new.__dict__["normalize"] = lambda kind, calls=calls, new=new: calls.append(kind) or new
+                scheme = lambda *a, **k: new     # noqa: E731
+                names = ("prop_and_compress", "prop_and_compress_tdrk4", "prop_and_compress_tdrk", "tdvp_mu_vmf", "tdvp_vmf", "tdvp_mu_cmf", "tdvp_ps", "tdvp_ps2")
+                cfg = Sym("evolve_config", method="tdvp_ps")
+                me = Sym("self", evolve_config=cfg, copy=lambda: Sym("copy"), to_complex=lambda *a, **k: Sym("complex copy"), **{f"_evolve_{n}": scheme for n in names})
+                me.__dict__["_evolve_tdvp_mu_vmf"] = scheme
+                dt = Sym("dt", imag=Blob("tau"), real=Blob("t"), is_imag=imag)
+                it = SymInterp(src, None, {"np": Sym("np", iscomplex=lambda x: bool(getattr(x, "is_imag", False))), "EvolveMethod": Sym("EvolveMethod", **{n: n for n in names}),
+                                           "EVOLVE_METHODS": SymDict(lambda k: scheme), "logger": Blob("logger")})
+                res = it.call_function(fi, [me, Sym("operator"), dt], {"normalize": normalize})
+                want = ([("mps_and_coeff" if imag else "mps_only")] if normalize else [])
+                chk.ob("imag-normalise", f"{qual}[{'imaginary' if imag else 'real'} step, normalize={normalize}]", calls == want and res is new, fi.where,
+                       {"normalize calls": calls, "returns the scheme's result": res is new}, {"normalize calls": want, "returns the scheme's result": True}, line=fi.node.lineno,
+                       detail="imaginary-time steps change the norm: state and prefactor are normalised together; a real-time step only renormalises the tensors (the prefactor carries the phase)")
     # ---- purification
     fm = src.func(MPDM, "MpDm.from_mps")
     emb = [norm_stmt(s, 80) for s in ast.walk(fm.node) if isinstance(s, ast.Assign) and isinstance(s.targets[0], ast.Subscript) and unparse(s.targets[0].value) == "mo"]
